@@ -1,11 +1,11 @@
-use rusty_linter::core::QBNumberCast;
 use rusty_parser::BuiltInFunction;
 
 use crate::RuntimeError;
 use crate::interpreter::interpreter_trait::InterpreterTrait;
+use crate::interpreter::variant_casts::VariantCasts;
 
 pub fn run<S: InterpreterTrait>(interpreter: &mut S) -> Result<(), RuntimeError> {
-    let len: i32 = interpreter.context()[0].try_cast()?;
+    let len: usize = interpreter.context()[0].to_non_negative_int()?;
     let mut s: String = String::new();
     for _ in 0..len {
         s.push(' ');
